@@ -14,6 +14,13 @@ representative per class of input, and compares the outcome with the IUPAC table
                                        angle.  Rules backbone-atoms / chi-atoms / chi-bases / chi-agree.
 * value returned after the atan2     - the tail of a torsion function on representatives of the atan2 value (and a
                                        structural proof that it is the identity).  Rule torsion-returned.
+* inter-stem torsion (round 4)       - Mapping2D3D.calculate_inter_stem_parameters on stub stems: which pair of stem ends
+                                       is closest x stem lengths -> the four centroids handed to the torsion function
+                                       (neighbour, end, end, neighbour), the reported type, radians scored / degrees
+                                       reported (conversions are tagged).  Rules interstem-points / interstem-units.
+* lookups (round 4)                  - tertiary_v2.Residue.find_atom + Atom.coordinates on stub frames: what was looked
+                                       up before x (coordinates changed in place | frame replaced) -> the coordinates a
+                                       later lookup returns must be the current ones.  Rule lookup-current-state.
 
 The shape of the code does not matter (if-chain, definition table walked by a loop, merged helper, local helper with
 early returns, conditional expressions).  Only when a fragment is *not evaluable* the pinned-form reading of the same
@@ -366,6 +373,18 @@ def check_chi_t1(chk, sp) -> Optional[Dict[str, Optional[Tuple[str, ...]]]]:
     return typical
 
 
+def _pinned(chk, cond: bool, rule: str, site: str, detail_ok: str, detail_bad: str, key: str, expected: Any = None, found: Any = None) -> bool:
+    """chk.expect for the pinned-form fallbacks: in a structurally rewritten function a pinned form that is not matched says
+    nothing about the behaviour (the evaluated reading was not possible either) -> ANALYSIS-ERROR, not a VIOLATION."""
+    if cond:
+        chk.ok(rule, site, detail_ok)
+    elif chk._rewritten(site):
+        chk.error(rule, site, "the fragment is not evaluable and the pinned form is not matched in a structurally rewritten function: " + detail_bad)
+    else:
+        chk.violation(rule, site, detail_bad, key, expected, found)
+    return cond
+
+
 def _pinned_chi_t1(chk, sp) -> None:
     """Pinned-form reading (round 2): two helpers with four literal find_atom calls each + if/elif dispatch."""
     repo = chk.repo
@@ -378,9 +397,9 @@ def _pinned_chi_t1(chk, sp) -> None:
         fi = repo.func(T1, q)
         chk.note_function(fi)
         atoms = [a.args[0].value for a in astq.calls(fi.node, "find_atom") if a.args and isinstance(a.args[0], ast.Constant)]
-        chk.expect(atoms == sp["chi"][kind], "chi-atoms", fi.where, f"{kind} chi = {'-'.join(atoms)}", f"{kind} chi uses {atoms}, IUPAC says {sp['chi'][kind]}", K(fi, "atoms"), expected=sp["chi"][kind], found=atoms)
+        _pinned(chk, atoms == sp["chi"][kind], "chi-atoms", fi.where, f"{kind} chi = {'-'.join(atoms)}", f"{kind} chi uses {atoms}, IUPAC says {sp['chi'][kind]}", K(fi, "atoms"), expected=sp["chi"][kind], found=atoms)
         rets = [r for r in ast.walk(fi.node) if isinstance(r, ast.Return) and isinstance(r.value, ast.Call)]
-        chk.expect(len(rets) == 1 and norm(rets[0].value) == "torsion_angle(*atoms)", "chi-atoms", fi.where, "chi = torsion over the four atoms in order", "chi is not torsion_angle(*atoms) in list order", K(fi, "call"))
+        _pinned(chk, len(rets) == 1 and norm(rets[0].value) == "torsion_angle(*atoms)", "chi-atoms", fi.where, "chi = torsion over the four atoms in order", "chi is not torsion_angle(*atoms) in list order", K(fi, "call"))
     chi = repo.func(T1, "Residue3D.chi")
     nan = float("nan")
 
@@ -402,7 +421,7 @@ def _pinned_chi_t1(chk, sp) -> None:
                 same = (val != val and want != want) or val == want
                 if kind != "return" or not same:
                     bad[f"{letter}: purine def {'n/a' if pu != pu else 'ok'}, pyrimidine def {'n/a' if py != py else 'ok'}"] = "purine" if val == 1.25 else "pyrimidine" if val == -2.5 else repr(val)
-        chk.expect(not bad, "chi-dispatch", chi.where, "A/G use the purine definition, C/U/T the pyrimidine one, unknown names the purine definition when it can be evaluated and else the pyrimidine one (9 letters x 4 availability cases evaluated)", "Residue3D.chi picks the wrong definition: " + "; ".join(f"{k} -> {v}" for k, v in list(bad.items())[:3]), K(chi, "dispatch"), found=bad)
+        _pinned(chk, not bad, "chi-dispatch", chi.where, "A/G use the purine definition, C/U/T the pyrimidine one, unknown names the purine definition when it can be evaluated and else the pyrimidine one (9 letters x 4 availability cases evaluated)", "Residue3D.chi picks the wrong definition: " + "; ".join(f"{k} -> {v}" for k, v in list(bad.items())[:3]), K(chi, "dispatch"), found=bad)
     except Unknown as ex:
         chk.error("chi-dispatch", chi.where, f"chi dispatch not evaluable: {ex}")
     except Exception as ex:
@@ -463,7 +482,7 @@ def _pinned_chi_class(chk, cc) -> None:
     try:
         reg = intervals.region(tests[0].test, [((lambda n: norm(n) == "self.chi"), "rad")], Folder(repo, T1).fold, extra_thresholds=(-30.0, 120.0, -180.0, 180.0))
         bad = {k: v for k, v in reg.items() if -180 <= k[0] <= 180 and v != (-30 < k[0] < 120)}
-        chk.expect(not bad and norm(tests[0].body[0]) == "return GlycosidicBond.syn", "chi-class-units", cc.site(tests[0]), "syn iff -30 < chi < 120 degrees, compared in radians", f"`{norm(tests[0].test)}` does not compare the radian-valued chi with -30..120 degrees converted to radians", K(cc, "units"), found={str(k): v for k, v in list(bad.items())[:4]})
+        _pinned(chk, not bad and norm(tests[0].body[0]) == "return GlycosidicBond.syn", "chi-class-units", cc.site(tests[0]), "syn iff -30 < chi < 120 degrees, compared in radians", f"`{norm(tests[0].test)}` does not compare the radian-valued chi with -30..120 degrees converted to radians", K(cc, "units"), found={str(k): v for k, v in list(bad.items())[:4]})
     except intervals.NotThreshold as ex:
         chk.error("chi-class-units", cc.site(tests[0]), str(ex))
 
@@ -691,22 +710,22 @@ def _pinned_table_v2(chk, sp) -> None:
                 var_atom[s.targets[0].id] = m["A_"].value
     quads = sorted([var_atom.get(norm(a).split(".")[0]) for a in c.args] for c in chis)
     want = sorted([sp["chi"]["purine"], sp["chi"]["pyrimidine"]])
-    chk.expect(quads == want, "chi-atoms", ta.where, "tertiary_v2 chi quadruples = IUPAC (purine N9/C4, pyrimidine N1/C2)", f"tertiary_v2 chi quadruples are {quads}", K(ta, "chi"), expected=want, found=quads)
+    _pinned(chk, quads == want, "chi-atoms", ta.where, "tertiary_v2 chi quadruples = IUPAC (purine N9/C4, pyrimidine N1/C2)", f"tertiary_v2 chi quadruples are {quads}", K(ta, "chi"), expected=want, found=quads)
     pu = astq.first_assign(ta.node, "purine_bases")
     py = astq.first_assign(ta.node, "pyrimidine_bases")
     f = Folder(repo, T2)
-    chk.expect(pu is not None and py is not None and f.try_fold(pu) == PU_NAMES and f.try_fold(py) == PY_NAMES, "chi-bases", ta.where, "purines A/G/DA/DG, pyrimidines C/U/T/DC/DT", "the purine/pyrimidine name lists changed", K(ta, "bases"))
+    _pinned(chk, pu is not None and py is not None and f.try_fold(pu) == PU_NAMES and f.try_fold(py) == PY_NAMES, "chi-bases", ta.where, "purines A/G/DA/DG, pyrimidines C/U/T/DC/DT", "the purine/pyrimidine name lists changed", K(ta, "bases"))
     td = None
     for s in ast.walk(ta.node):
         if isinstance(s, ast.Assign) and norm(s.targets[0]) == "torsion_definitions":
             td = Folder(repo, T2).try_fold(s.value)
     want_b = {k: [tuple(x) for x in v] for k, v in sp["backbone"].items()}
     got_b = {k: v for k, v in (td or {}).items() if k != "chi"}
-    chk.expect(got_b == want_b and (td or {}).get("chi", 0) is None, "backbone-atoms", ta.where, "alpha..zeta atom quadruples equal the IUPAC table", "backbone torsion definitions differ from IUPAC", K(ta, "backbone"), expected={k: want_b[k] for k in want_b if got_b.get(k) != want_b[k]}, found={k: got_b.get(k) for k in want_b if got_b.get(k) != want_b[k]})
+    _pinned(chk, got_b == want_b and (td or {}).get("chi", 0) is None, "backbone-atoms", ta.where, "alpha..zeta atom quadruples equal the IUPAC table", "backbone torsion definitions differ from IUPAC", K(ta, "backbone"), expected={k: want_b[k] for k in want_b if got_b.get(k) != want_b[k]}, found={k: got_b.get(k) for k in want_b if got_b.get(k) != want_b[k]})
     bb = [c for c in astq.calls(ta.node, "calculate_torsion_angle") if flat(c) == flat("calculate_torsion_angle(atoms[0], atoms[1], atoms[2], atoms[3])")]
-    chk.expect(len(bb) == 1, "torsion-wrapper", ta.where, "backbone torsions pass the four atoms in definition order", "backbone torsions do not pass atoms[0..3] in order", K(ta, "backbone-call"))
+    _pinned(chk, len(bb) == 1, "torsion-wrapper", ta.where, "backbone torsions pass the four atoms in definition order", "backbone torsions do not pass atoms[0..3] in order", K(ta, "backbone-call"))
     app = [s for s in ast.walk(ta.node) if isinstance(s, ast.Expr) and norm(s.value) == "atoms.append(atom.coordinates)"]
-    chk.expect(len(app) == 1, "torsion-wrapper", ta.where, "atoms are collected in the order of the definition", "atom coordinates are not appended in definition order", K(ta, "backbone-order"))
+    _pinned(chk, len(app) == 1, "torsion-wrapper", ta.where, "atoms are collected in the order of the definition", "atom coordinates are not appended in definition order", K(ta, "backbone-order"))
 
 
 # ---------------------------------------------------------------------------------------------------------------------
